@@ -362,7 +362,7 @@ def work(task):
 
 def run(ctx):
     cat = catalogue()
-    max_gen = 2 if ctx.tier == "quick" else 3
+    max_gen = 3 if ctx.tier == "quick" else 4
     tasks = []
     for ei in range(len(cat)):
         for where in ("ir", "module"):
